@@ -929,6 +929,116 @@ pub fn run_check(mode: Mode, replay: Option<Value>) -> i32 {
             }
         }
     }
+    // far from the time origin, and in units where the roots are closer together than any absolute time constant:
+    // whatever is compared with an absolute number, or converted to an integer, breaks here
+    if mode == Mode::C09 || mode == Mode::C08 {
+        let dec = crate::problems::base(crate::problems::Base::Decay(-0.05));
+        for m in M6 {
+            for backward in [false, true] {
+                let dirn = if backward { -1.0 } else { 1.0 };
+                let p = if backward { crate::problems::reflect(&dec) } else { dec.clone() };
+                if mode == Mode::C09 {
+                    // (a) sign changes of one function every two steps: at the origin 1e12 (steps of 2.5e-4, two ulps),
+                    // and in picoseconds at the origin 0 (steps of 3e-13); one event per sign change between samples
+                    for (si, (o, h, nst, w)) in [(1e12, 2.5e-4, 80.0, std::f64::consts::PI / 5e-4), (0.0, 3e-13, 40.0, 2.5e12)].iter().enumerate() {
+                        let key = format!("crossings-far:{}:{}:{}", mname(m), si, backward as u8);
+                        if only.as_ref().map(|k| *k != key).unwrap_or(false) {
+                            continue;
+                        }
+                        if si == 0 && m != Method::RK4 {
+                            // (the error-controlled methods refuse steps below ten ulps of x - StepSizeTooSmall - which is what
+                            // two ulps are; the fixed-step method takes them)
+                            continue;
+                        }
+                        let (x0, xend) = (dirn * o, dirn * o + dirn * h * nst);
+                        let mut c = Cfg::new(m, x0, xend, &p.y0).tol(1e-6, 1e-8);
+                        c.first_step = Some(dirn * h);
+                        c.max_step = Some(*h);
+                        let spec = EventSpec::new(EvKind::SinAt(*w, x0));
+                        c.events = vec![spec.clone()];
+                        let r = run(&p, &c);
+                        rep.evaluations += 1;
+                        rep.transitions += r.st.n_ode;
+                        match r.sol() {
+                            Some(s) if s.status == Status::Success => {
+                                let gs: Vec<f64> = s.t.iter().zip(&s.y).map(|(t, y)| spec.g(*t, y)).collect();
+                                let changes = gs.windows(2).filter(|w| (w[0] < 0.0 && w[1] >= 0.0) || (w[0] > 0.0 && w[1] <= 0.0)).count();
+                                let ev = &s.t_events[0];
+                                if ev.len() != changes {
+                                    rep.violations.push(Violation::new(&key, "crossings-far", format!("{} on [{:e}, {:e}] in steps of {:e}: g = sin(w (t - x0) + 0.3) changes sign between consecutive samples {} times, {} events are reported", mname(m), x0, xend, h, changes, ev.len()), json!({"key": key})).with("method", mname(m)));
+                                }
+                                rep.validated += 1;
+                                if changes >= 10 {
+                                    *rep.tags.entry("crossings-far".into()).or_insert(0) += 1;
+                                }
+                            }
+                            _ => rep.violations.push(Violation::new(&key, "outcome", format!("{} on [{:e}, {:e}] in steps of {:e} with one event function ended with {}", mname(m), x0, xend, h, r.outcome_name()), json!({"key": key})).with("method", mname(m))),
+                        }
+                    }
+                    // (b) a single root in the last ulps before xend, steps of 2^-10 on [1e9, 1e9 + 1]
+                    for back_ulps in [1u32, 3, 6] {
+                        let key = format!("root-before-xend:{}:{}:{}", mname(m), back_ulps, backward as u8);
+                        if only.as_ref().map(|k| *k != key).unwrap_or(false) {
+                            continue;
+                        }
+                        let (x0, xend): (f64, f64) = (dirn * 1e9, dirn * 1e9 + dirn);
+                        let mut root = xend;
+                        for _ in 0..back_ulps {
+                            root = f64::from_bits(root.to_bits() - 1);
+                        }
+                        let mut c = Cfg::new(m, x0, xend, &p.y0).tol(1e-6, 1e-8);
+                        c.first_step = Some(dirn / 1024.0);
+                        c.max_step = Some(1.0 / 1024.0);
+                        c.events = vec![EventSpec::new(EvKind::T(root))];
+                        let r = run(&p, &c);
+                        rep.evaluations += 1;
+                        rep.transitions += r.st.n_ode;
+                        let ok = r.sol().map(|s| s.status == Status::Success && s.t_events[0].len() == 1 && (s.t_events[0][0] - root).abs() <= 8.0 * f64::EPSILON * 1e9).unwrap_or(false);
+                        if !ok {
+                            rep.violations.push(Violation::new(&key, "root-before-xend", format!("{} on [{:e}, {:?}] in steps of 2^-10, g = t - c with c {} ulps before xend: {} with events {:?}", mname(m), x0, xend, back_ulps, r.outcome_name(), r.sol().map(|s| s.t_events[0].clone())), json!({"key": key})).with("method", mname(m)));
+                        }
+                        rep.validated += 1;
+                        *rep.tags.entry("root-before-xend".into()).or_insert(0) += 1;
+                    }
+                } else {
+                    // (c) two functions with roots in one step at the origin 1e10, the earlier one terminal, in both index
+                    // orders: the run stops at the earlier root and nothing later is recorded
+                    for swap in [false, true] {
+                        let key = format!("terminal-far:{}:{}:{}", mname(m), backward as u8, swap as u8);
+                        if only.as_ref().map(|k| *k != key).unwrap_or(false) {
+                            continue;
+                        }
+                        let o = 1e10;
+                        let (x0, xend) = (dirn * o, dirn * o + dirn * 2.0);
+                        let (early, late) = (x0 + dirn * 0.5625, x0 + dirn * 0.6875);
+                        let mut c = Cfg::new(m, x0, xend, &p.y0).tol(1e-6, 1e-8);
+                        c.first_step = Some(dirn * 0.25);
+                        c.max_step = Some(0.25);
+                        let e_t = EventSpec::new(EvKind::T(early)).term(1);
+                        let e_n = EventSpec::new(EvKind::T(late));
+                        c.events = if swap { vec![e_n, e_t] } else { vec![e_t, e_n] };
+                        let (it, inn) = if swap { (1, 0) } else { (0, 1) };
+                        let r = run(&p, &c);
+                        rep.evaluations += 1;
+                        rep.transitions += r.st.n_ode;
+                        let slack = 8.0 * f64::EPSILON * o;
+                        let ok = r
+                            .sol()
+                            .map(|s| s.status == Status::UserInterrupt && s.t_events[it].len() == 1 && (s.t_events[it][0] - early).abs() <= slack && s.t_events[inn].is_empty() && s.t.last().map(|t| (t - early).abs() <= slack).unwrap_or(false))
+                            .unwrap_or(false);
+                        if !ok {
+                            rep.violations.push(
+                                Violation::new(&key, "terminal-far", format!("{} from {:e} in steps of 0.25: a terminal root at {:?} (function {}) and a later root at {:?} (function {}) in one step: {} with t_events {:?}, last sample {:?}", mname(m), x0, early, it, late, inn, r.outcome_name(), r.sol().map(|s| s.t_events.clone()), r.sol().and_then(|s| s.t.last().copied())), json!({"key": key}))
+                                    .with("method", mname(m)),
+                            );
+                        }
+                        rep.validated += 1;
+                        *rep.tags.entry("terminal-far".into()).or_insert(0) += 1;
+                    }
+                }
+            }
+        }
+    }
     if only.is_some() {
         for v in &rep.violations {
             println!("replay: VIOLATED [{}]: {}\n{}", v.sig["check"], v.msg, serde_json::to_string_pretty(&v.case).unwrap());
